@@ -25,14 +25,14 @@ def gen_family(rng):
         methods = {}
         if ci == 0 and has_b0:
             methods['b0'] = {'dec': True, 'watch': rng.choice([False, False, True]), 'on_init': False,
-                             'deps': sorted(rng.sample(PARAMS, rng.randint(1, 2)))}
+                             'deps': sorted(rng.sample(PARAMS, rng.choice([0, 1, 1, 2, 2])))}      # depends() with nothing listed: on nothing
         for m in mnames:
             if ci == 0 or rng.random() < 0.45:
                 if ci > 0 and rng.random() < 0.25:
                     methods[m] = {'dec': False}
                     continue
                 pool = list(PARAMS) + ['a:bounds'] + (['b0'] if has_b0 else [])
-                deps = sorted(set(rng.choice(pool) for _ in range(rng.randint(1, 3))))
+                deps = sorted(set(rng.choice(pool) for _ in range(rng.choice([0, 1, 1, 1, 2, 2, 2, 3, 3, 3]))))
                 methods[m] = {'dec': True, 'watch': weighted(rng, [(True, 6), ('queued', 1.5), (False, 1.5)]),
                               'on_init': rng.random() < 0.25, 'deps': deps}
         classes.append({'bases': bs, 'methods': methods, 'redeclare': (ci > 0 and rng.random() < 0.15)})
@@ -436,9 +436,13 @@ class DependsWorld:
         hows = [('any', 3), ('equal', 2), ('first', 1.5), ('later', 2)]
         for _ in range(n_ops):
             k = weighted(rng, [('attach', 6), ('detach', 1.0), ('leaf', 6), ('leaf2', 1.5), ('swap2', 2 if len(slots) > 1 else 0), ('own', 0.7),
+                               ('subbatch', 1.2),
                                ('drain', 1.0 if any(m.get('async') for m in methods) else 0)])
             if k == 'drain':
                 ops.append({'op': 'drain'})
+            elif k == 'subbatch':
+                ops.append({'op': 'subbatch', 'n': rng.randrange(cfg['pool']), 'p': rng.choice(leafs), 'at': rng.randint(0, cfg['pool']),
+                            'slot': rng.choice(slots), 'n2': rng.randrange(cfg['pool']), 'how': weighted(rng, [('equal', 4), ('any', 1), ('first', 1)])})
             elif k == 'attach':
                 ops.append({'op': 'attach', 'at': rng.randint(0, cfg['pool']), 'slot': rng.choice(slots), 'n': rng.randrange(cfg['pool']),
                             'how': weighted(rng, hows)})
@@ -673,6 +677,58 @@ class DependsWorld:
                         poked_detached = True
                         out.stats['probe.detached_node_poked'] += 1
                     desc = f"{k} N{n} {vals}"
+                elif k == 'subbatch':
+                    # a leaf assignment made while the events of that sub-object are batched, followed - inside the same batch -
+                    # by an attachment somewhere under the parent (which re-installs the parent's watchers)
+                    n = op['n'] % len(pool)
+                    h = holder(op['at'])
+                    sl = op.get('slot', 'sub')
+                    if sl not in SLOTS:
+                        sl = SLOTS[0]
+                    n2 = op['n2'] % len(pool)
+                    if h == n2 or (h != 'P' and h in reachable(n2) | {n2}):
+                        continue
+                    if not shape(n2, att[(h, sl)], op.get('how', 'equal')):
+                        break
+                    settle()
+                    del log[:]
+                    before = snapshot()
+                    counter[0] += 1
+                    with param.parameterized.batch_call_watchers(pool[n]):
+                        setattr(pool[n], op['p'], counter[0])
+                        leaf[n][op['p']] = counter[0]
+                        mid = snapshot()
+                        setattr(real(h), sl, pool[n2])
+                        att[(h, sl)] = n2
+                        ever_attached.add(n2)
+                    settle()
+                    after = snapshot()
+                    got = list(log)
+                    del log[:]
+                    desc = f"N{n}.{op['p']} = {counter[0]} and attach N{n2} under {h}.{sl} ({op.get('how')}) inside batch_call_watchers(N{n})"
+                    out.log.append(f"{step} {desc} -> calls {got}")
+                    out.stats['op.subbatch'] += 1
+                    for mi, m in enumerate(cfg['methods']):
+                        b, md, a = before[mi], mid[mi], after[mi]
+                        if any(x == 'UNRESOLVED' for x in list(b) + list(md) + list(a)) or any(isinstance(x, tuple) for x in list(b) + list(a)):
+                            out.stats['dontcare.path_unresolved'] += 1
+                            continue
+                        c1, c2 = b != md, md != a
+                        if c1 and c2:
+                            continue        # two separate changes, one of them deferred: once or twice
+                        want = 1 if (c1 or c2) else 0
+                        out.stats['decided_method_checks'] += 1
+                        if c1:
+                            out.stats['probe.batched_leaf_change_then_rebuild'] += 1
+                        if got.count(mi) != want:
+                            out.violations.append(('C07.fire' if want else 'C07.silent', step,
+                                                   f"{desc}: m{mi} depends on {m['deps']}; values through the current path {b} -> {md} -> {a}; "
+                                                   f"the method ran {got.count(mi)} times, expected {want}"))
+                            break
+                    if out.violations:
+                        break
+                    states.append(f"{sorted((str(h_), v) for h_, v in att.items() if v is not None)}|{k}")
+                    continue
                 elif k == 'own':
                     counter[0] += 1
                     del log[:]
